@@ -1009,7 +1009,7 @@ pub fn gen_history(seed: u64, k: u64, max_events: usize) -> History {
     let mut model_disk: BTreeMap<String, Option<String>> = BTreeMap::new();
     for f in lc::FILES {
         let vs = lc::variants_of(f);
-        let st = if *f != "main.asm" && rng.chance(1, 10) {
+        let st = if *f != "main.asm" && rng.chance(1, 5) {
             DiskState::Missing
         } else {
             DiskState::Text(rng.pick(vs).to_string())
@@ -1130,7 +1130,10 @@ pub fn gen_history(seed: u64, k: u64, max_events: usize) -> History {
                 }
                 let file = rng.pick(&open).clone();
                 // editors usually save before closing; sometimes they do not
-                if rng.chance(2, 3) && !file.starts_with("untitled:") {
+                // editors usually save before closing; sometimes they do not - and a document that was never
+                // saved (it exists in the editor only) is more often discarded than not
+                let never_saved = model_disk.get(&file).cloned().flatten().is_none();
+                if rng.chance(if never_saved { 1 } else { 2 }, 3) && !file.starts_with("untitled:") {
                     let t = buffers[&file].clone();
                     model_disk.insert(file.clone(), Some(t.clone()));
                     events.push(Ev::Disk { file: file.clone(), state: DiskState::Text(t) });
